@@ -42,3 +42,22 @@ claim('C09', 'other',
       'attributes; fallbacks select the reference matcher. It does NOT decide equivalence of the two search loops.',
       'trusts: attribute domains listed in evidence.assumptions; ROLE table as buffer contract; the .pyx analysed as text',
       'DESIGN.md 3.D, 4/C09')
+claim('C03', 'other',
+      'exception-flow analysis over the reader layer (raise-class family through the exceptions.py hierarchy, enclosing '
+      'handler conversion), frozen guard instances for every indexing/lookup on input-derived data, end-of-input state '
+      'exhaustiveness of the tokenizer, regex-language enumeration (re._parser) vs the charge table, negative-count slices',
+      'decides the rejection clause only: no KeyError/IndexError/TypeError/StopIteration can escape smiles() for string '
+      'input through any reviewed operation, every explicit raise is a ValueError subclass, every charge spelling of the '
+      'table is reachable, reaction role slices use non-negative offsets. It does NOT decide that the molecule built is '
+      'the one the language defines (needs an independent reader as oracle).',
+      'trusts: DAYLIGHT_TABLE (reviewed operations with their guards/invariants); int()/float()/unpacking raise ValueError (accepted)',
+      'DESIGN.md 3.E, 4/C03')
+claim('C08', 'other',
+      'decision-ladder normalisation of every query __eq__ to a rejection DNF over canonical predicates compared with the '
+      'documented semantics table; primitive-letter plumbing; constructor keyword coverage; reader exception discipline on the smarts() path',
+      'decides: each of QueryElement/AnyElement/ListElement/AnyMetal/QueryBond rejects exactly under the documented '
+      'conditions (robust to re-ordering/re-nesting), every SMARTS primitive letter lands in the attribute its documentation '
+      'names, and malformed SMARTS is rejected with IncorrectSmarts/ValueError rather than an unrelated exception. '
+      'Correctness of the atom labels the predicates read is C06/C13.',
+      'trusts: EXPECTED semantics table in sa/r_query.py; DAYLIGHT_TABLE',
+      'DESIGN.md 3.F-q, 4/C08')
